@@ -3,123 +3,91 @@
 
    [sigma : list ident -> list ident] stands for "the order in which CPython iterates the set with
    these elements"; the only thing assumed about it is [perm_oracle] (it is a permutation).  A
-   family [otag -> ...] gives every construct of a program its own oracle. *)
+   family [otag -> ...] gives every construct of a program its own oracle.
+
+   [promote] / [transl] model the code as it is: the names hoisted out of an if / try branch and out of a while / for
+   body are walked through sorted(...) (repair of F-C10-promotion-order, known_findings.d/C10.json kind "fixed").
+   [promote_with sigma] / [transl_with sigma] are the same algorithm walking the sets unsorted - the code before the
+   repair - and occur only in the last-but-one group of statements. *)
 From Coq Require Import ZArith List Bool Permutation Sorted String.
 From RV Require Import Base.Wire Base.Text Lang.Order Proofs.OrderP.
 From RV Require Import Gen.SetSites Lang.OrderSites Proofs.OrderSitesP Lang.DevSession Proofs.DevSessionP.
 Import ListNotations.
 Open Scope Z_scope.
 
-(* ---------------------------------------------------------------- full strength: refuted *)
-(* C10_order_independent (forall s1 s2 p, perm s1 -> perm s2 -> transl s1 p = transl s2 p) is FALSE for the code as it is:
-   five names first assigned in one `if` body come out in the iteration order of a set (known finding F-C10-promotion-order) *)
-Theorem C10_promotion_order_refuted :
-  exists s1 s2 p, perm_family s1 /\ perm_family s2 /\ transl s1 p <> transl s2 p.
-Proof. exact order_dependence_exists. Qed.
-Print Assumptions C10_promotion_order_refuted.
+(* ---------------------------------------------------------------- full strength *)
+(* the declaration-and-block skeleton of the translation does not depend on any iteration order of any set: every program
+   of the modelled fragment, every family of permutation oracles, no guard *)
+Theorem C10_order_independent : forall s1 s2 p,
+  perm_family s1 -> perm_family s2 -> transl s1 p = transl s2 p.
+Proof. exact transl_independent. Qed.
+Print Assumptions C10_order_independent.
 
-Example C10_witness_orders :
-  map fst (o_globals (transl (fun _ => sid) witness_prog)) = [n_cnd; n_a; n_b; n_d; n_e; n_c] /\
-  map fst (o_globals (transl (fun _ => srev) witness_prog)) = [n_cnd; n_c; n_e; n_d; n_b; n_a].
-Proof. exact witness_globals. Qed.
-Print Assumptions C10_witness_orders.
+(* the hypotheses are satisfiable by two different oracles, on the program that used to separate them (five names first
+   assigned in one `if` body: the witness of F-C10-promotion-order, outside the pre-repair guard) *)
+Example C10_order_independent_nonvacuous :
+  perm_family (fun _ => sid) /\ perm_family (fun _ => srev) /\ sid [n_a; n_b] <> srev [n_a; n_b].
+Proof. exact two_oracles. Qed.
+Print Assumptions C10_order_independent_nonvacuous.
 
-(* the guard is tight: ANY branch with two distinct new names separates two oracles ... *)
-Theorem C10_two_names_in_a_branch_refuted : forall parent x y tx ty,
-  x <> y -> tmem x parent = false -> tmem y parent = false ->
-  promote sid (CIf parent [[(x, tx); (y, ty)]]) <> promote srev (CIf parent [[(x, tx); (y, ty)]]).
-Proof. exact promote_if_two_names. Qed.
-Print Assumptions C10_two_names_in_a_branch_refuted.
+Example C10_witness_one_order :
+  transl (fun _ => sid) witness_prog = transl (fun _ => srev) witness_prog /\
+  map fst (o_globals (transl (fun _ => srev) witness_prog)) = [n_cnd; n_a; n_b; n_d; n_e; n_c] /\
+  o_ok (transl (fun _ => srev) witness_prog) = false.
+Proof. exact witness_fixed. Qed.
+Print Assumptions C10_witness_one_order.
 
-(* ... and so does any loop construct with two new names that _collect_order does not meet (the loop clause of the guard;
-   the translation of the modelled fragment always meets them, the clause keeps the construct-level model honest) *)
-Theorem C10_two_unmet_names_in_a_loop_refuted : forall x y tx ty,
-  x <> y ->
-  promote sid (CLoop [] [(x, tx); (y, ty)]) <> promote srev (CLoop [] [(x, tx); (y, ty)]).
-Proof. exact promote_loop_two_names. Qed.
-Print Assumptions C10_two_unmet_names_in_a_loop_refuted.
+(* a program outside the pre-repair guard in three places (function body, second branch re-declaring a recorded name, except
+   clause in the main loop): one output, hoisted names in code-point order branch by branch, typed from the first branch *)
+Example C10_open_region_program :
+  o_ok (transl (fun _ => srev) open_prog) = false /\
+  transl (fun _ => sid) open_prog = transl (fun _ => srev) open_prog /\
+  o_funs (transl (fun _ => srev) open_prog) =
+    [(txt "fn"%string, [NDecl n_a 0; NDecl n_e 1; NDecl n_b 2; NDecl n_d 3;
+                        NIf [[NAssign n_e; NAssign n_a]; [NAssign n_d; NAssign n_a; NAssign n_b]]])] /\
+  o_loop (transl (fun _ => srev) open_prog) =
+    [NDecl n_b 3; NDecl n_c 1; NTry [[NAssign n_cnd]; [NAssign n_c; NAssign n_b]]].
+Proof. exact open_prog_ok. Qed.
+Print Assumptions C10_open_region_program.
 
-(* ---------------------------------------------------------------- _partial: inside the guard *)
-(* one construct.  [guard]: every branch of an if / try contributes at most one name that is neither declared by the parent
-   nor recorded by an earlier branch; every new name of a loop body is met by _collect_order *)
-Theorem C10_partial_construct : forall s1 s2 c,
-  perm_oracle s1 -> perm_oracle s2 -> guard c = true -> promote s1 c = promote s2 c.
-Proof. exact promote_guarded. Qed.
-Print Assumptions C10_partial_construct.
+(* one construct: whatever the branches declare *)
+Theorem C10_construct_order_independent : forall s1 s2 c,
+  perm_oracle s1 -> perm_oracle s2 -> promote s1 c = promote s2 c.
+Proof. exact promote_independent. Qed.
+Print Assumptions C10_construct_order_independent.
 
-(* the simple sufficient condition: at most one new name per branch *)
-Theorem C10_guard_one_name_per_branch : forall parent brs,
-  forallb (fun br : list decl => (List.length br <=? 1)%nat) brs = true -> guard (CIf parent brs) = true.
-Proof. exact (fun parent brs => guard_if_small parent brs []). Qed.
-Print Assumptions C10_guard_one_name_per_branch.
+(* the two construct shapes that separated two oracles before the repair (C10_two_names_in_a_branch_refuted,
+   C10_two_unmet_names_in_a_loop_refuted) no longer do - for all names and types, no side condition left *)
+Theorem C10_two_names_in_a_branch : forall parent x y tx ty,
+  promote sid (CIf parent [[(x, tx); (y, ty)]]) = promote srev (CIf parent [[(x, tx); (y, ty)]]).
+Proof. exact promote_two_names_in_a_branch. Qed.
+Print Assumptions C10_two_names_in_a_branch.
 
-(* whole programs of the modelled fragment: if every construct met by the translation is inside the guard
-   ([o_ok]), the declaration-and-block skeleton does not depend on any iteration order *)
-Theorem C10_partial : forall s1 s2 p,
-  perm_family s1 -> perm_family s2 -> o_ok (transl s1 p) = true -> transl s1 p = transl s2 p.
-Proof. exact transl_guarded. Qed.
-Print Assumptions C10_partial.
+Theorem C10_two_unmet_names_in_a_loop : forall x y tx ty,
+  promote sid (CLoop [] [(x, tx); (y, ty)]) = promote srev (CLoop [] [(x, tx); (y, ty)]).
+Proof. exact promote_two_unmet_names_in_a_loop. Qed.
+Print Assumptions C10_two_unmet_names_in_a_loop.
 
-(* non-vacuity: a guarded program that hoists four declarations *)
-Example C10_partial_nonvacuous :
-  o_ok (transl (fun _ => sid) guarded_prog) = true /\
-  o_globals (transl (fun _ => sid) guarded_prog) = [(n_cnd, 0); (n_a, 0); (n_b, 1)] /\
-  o_loop (transl (fun _ => sid) guarded_prog) = [NDecl n_c 0; NDecl n_d 3; NWhile [NAssign n_c; NAssign n_d]].
-Proof. exact guarded_prog_ok. Qed.
-Print Assumptions C10_partial_nonvacuous.
+(* WHICH order comes out: the one a walk of every set in code-point order yields (branch by branch, first recording wins;
+   loop bodies: first-declaration order, then the unmet names in code-point order) *)
+Theorem C10_promotion_order_is_canonical : forall s c, perm_oracle s -> promote s c = promote_with sort c.
+Proof. exact promote_canonical. Qed.
+Print Assumptions C10_promotion_order_is_canonical.
 
-Example C10_partial_nonvacuous_two_names :
-  o_ok (transl (fun _ => sid) guarded_prog2) = true /\
-  o_funs (transl (fun _ => srev) guarded_prog2) =
-    [(txt "fn"%string, [NDecl n_a 0; NDecl n_b 1; NIf [[NAssign n_a]; [NAssign n_b; NAssign n_a]]])].
-Proof. exact guarded_prog2_ok. Qed.
-Print Assumptions C10_partial_nonvacuous_two_names.
-
-(* the while / for sites never matter in the fragment: the construct these handlers build (see walk_stmt: body walked from
-   [c], resp. from [c] + the loop variable) always satisfies the loop clause of the guard, because every name a block newly
-   declares is met as a declaration node by _collect_order - so the defect is confined to if/elif/else and try/except *)
-Theorem C10_loop_constructs_always_guarded : forall P body c,
-  guard (CLoop (flat_map decl_names (w_nodes (walk_block P body c)))
-               (new_decls c (w_ctx (walk_block P body c)))) = true.
-Proof. exact loop_guard_holds. Qed.
-Print Assumptions C10_loop_constructs_always_guarded.
-
-(* being inside the guard is a property of the program, not of the iteration orders *)
-Theorem C10_guard_is_oracle_independent : forall s1 s2 p,
-  perm_family s1 -> perm_family s2 -> o_ok (transl s1 p) = o_ok (transl s2 p).
-Proof. exact guard_oracle_independent. Qed.
-Print Assumptions C10_guard_is_oracle_independent.
+Theorem C10_translation_is_canonical : forall s p, perm_family s -> transl s p = transl_with (fun _ => sort) p.
+Proof. exact transl_canonical. Qed.
+Print Assumptions C10_translation_is_canonical.
 
 (* the oracles the harness feeds to the extracted model are permutation oracles *)
 Theorem C10_harness_oracles_are_permutations : perm_family sigma_rank.
 Proof. exact sigma_rank_perm. Qed.
 Print Assumptions C10_harness_oracles_are_permutations.
 
-(* ... and they reach every iteration order: the order [l'] of a set with elements [l] is what [sigma_rank l'] yields, so when
-   the correspondence finds no rank list explaining an output, no iteration order explains it *)
+(* ... and they reach every iteration order: the order [l'] of a set with elements [l] is what [sigma_rank l'] yields *)
 Theorem C10_harness_oracles_reach_every_order : forall l l',
   NoDup l' -> Permutation l' l -> sigma_rank l' l = l'.
 Proof. exact sigma_rank_complete. Qed.
 Print Assumptions C10_harness_oracles_reach_every_order.
-
-(* ---------------------------------------------------------------- only the ORDER can vary *)
-Theorem C10_result_is_permutation : forall s1 s2 c,
-  perm_oracle s1 -> perm_oracle s2 -> Permutation (promote s1 c) (promote s2 c).
-Proof. exact promote_permutation. Qed.
-Print Assumptions C10_result_is_permutation.
-
-(* ---------------------------------------------------------------- the candidate repair (not the code as it is) *)
-(* `for name in sorted(new_names)` / `for name in sorted(promoted_set)`: order independent with NO guard ... *)
-Theorem C10_candidate_fix_order_independent : forall s1 s2 p,
-  perm_family s1 -> perm_family s2 -> transl_fixed s1 p = transl_fixed s2 p.
-Proof. exact transl_fixed_independent. Qed.
-Print Assumptions C10_candidate_fix_order_independent.
-
-(* ... and it changes no output for programs inside the guard *)
-Theorem C10_candidate_fix_conservative : forall s p,
-  perm_family s -> o_ok (transl s p) = true -> transl_fixed s p = transl s p.
-Proof. exact transl_fixed_conservative. Qed.
-Print Assumptions C10_candidate_fix_conservative.
 
 (* ---------------------------------------------------------------- the sorted() sites *)
 Theorem C10_sorted_site_order_independent : forall s1 s2 l,
@@ -143,24 +111,83 @@ Theorem C10_pure : forall sigma before p after,
 Proof. exact session_pure. Qed.
 Print Assumptions C10_pure.
 
-Theorem C10_session_of_guarded_programs : forall s1 s2 ps,
-  perm_family s1 -> perm_family s2 ->
-  forallb (fun p => o_ok (transl s1 p)) ps = true -> session s1 ps = session s2 ps.
-Proof. exact session_guarded. Qed.
-Print Assumptions C10_session_of_guarded_programs.
+Theorem C10_session_order_independent : forall s1 s2 ps,
+  perm_family s1 -> perm_family s2 -> session s1 ps = session s2 ps.
+Proof. exact session_order_independent. Qed.
+Print Assumptions C10_session_order_independent.
+
+(* ---------------------------------------------------------------- what the sorted() calls buy (the code BEFORE the repair) *)
+(* the same algorithm walking the sets unsorted depends on the order: this is what the check reports, with the witness of
+   the fixed finding as replay, if the sorted() calls are taken out again *)
+Theorem C10_unsorted_walk_is_order_dependent :
+  exists s1 s2 p, perm_family s1 /\ perm_family s2 /\ transl_with s1 p <> transl_with s2 p.
+Proof. exact order_dependence_exists. Qed.
+Print Assumptions C10_unsorted_walk_is_order_dependent.
+
+Example C10_unsorted_walk_witness_orders :
+  map fst (o_globals (transl_with (fun _ => sid) witness_prog)) = [n_cnd; n_a; n_b; n_d; n_e; n_c] /\
+  map fst (o_globals (transl_with (fun _ => srev) witness_prog)) = [n_cnd; n_c; n_e; n_d; n_b; n_a].
+Proof. exact witness_globals. Qed.
+Print Assumptions C10_unsorted_walk_witness_orders.
+
+(* only the ORDER could vary *)
+Theorem C10_unsorted_walk_result_is_permutation : forall s1 s2 c,
+  perm_oracle s1 -> perm_oracle s2 -> Permutation (promote_with s1 c) (promote_with s2 c).
+Proof. exact promote_permutation. Qed.
+Print Assumptions C10_unsorted_walk_result_is_permutation.
+
+(* the sorted() of the while / for handlers is defence only: the construct these handlers build (see walk_stmt: body walked
+   from [c], resp. from [c] + the loop variable) always satisfies the loop clause of the guard, because every name a block
+   newly declares is met as a declaration node by _collect_order - so even an unsorted walk of `promoted_set` never reached
+   the output in the fragment; the defect was confined to if/elif/else and try/except *)
+Theorem C10_loop_constructs_always_guarded : forall P body c,
+  guard (CLoop (flat_map decl_names (w_nodes (walk_block P body c)))
+               (new_decls c (w_ctx (walk_block P body c)))) = true.
+Proof. exact loop_guard_holds. Qed.
+Print Assumptions C10_loop_constructs_always_guarded.
+
+Theorem C10_unsorted_walk_of_a_loop_site_is_invisible : forall s1 s2 P body c,
+  perm_oracle s1 -> perm_oracle s2 ->
+  let r := walk_block P body c in
+  promote_with s1 (CLoop (flat_map decl_names (w_nodes r)) (new_decls c (w_ctx r))) =
+  promote_with s2 (CLoop (flat_map decl_names (w_nodes r)) (new_decls c (w_ctx r))).
+Proof. exact loop_site_independent. Qed.
+Print Assumptions C10_unsorted_walk_of_a_loop_site_is_invisible.
+
+(* the repair changed no output of a program whose every construct was inside the pre-repair guard ([o_ok]: every if / try
+   branch contributes at most one not-yet-recorded new name, every new name of a loop body is met as a declaration node) *)
+Theorem C10_repair_conservative : forall s p,
+  perm_family s -> o_ok (transl_with s p) = true -> transl s p = transl_with s p.
+Proof. exact transl_conservative. Qed.
+Print Assumptions C10_repair_conservative.
+
+Example C10_repair_conservative_nonvacuous :
+  o_ok (transl_with (fun _ => sid) guarded_prog) = true /\
+  o_globals (transl_with (fun _ => sid) guarded_prog) = [(n_cnd, 0); (n_a, 0); (n_b, 1)] /\
+  o_loop (transl_with (fun _ => sid) guarded_prog) = [NDecl n_c 0; NDecl n_d 3; NWhile [NAssign n_c; NAssign n_d]].
+Proof. exact guarded_prog_ok. Qed.
+Print Assumptions C10_repair_conservative_nonvacuous.
 
 (* ---------------------------------------------------------------- inventory of the CURRENT source (Gen/SetSites.v) *)
-(* every set iteration of parser.py / emitter.py whose order reaches its consumer is one of the modelled sites *)
-Theorem C10_sites_accounted : forall s, In s sites -> s_class s = 0 ->
-  exists m, In m modelled_sites /\ s_fn s = fst m /\ s_iter s = snd m.
-Proof. exact sites_accounted. Qed.
-Print Assumptions C10_sites_accounted.
+(* no set iteration of parser.py / emitter.py lets its order reach the consumer: every one is wrapped in sorted() or feeds an
+   order-insensitive consumer (len, set, any, membership ...) *)
+Theorem C10_no_unsorted_set_iteration : forall s, In s sites -> s_class s = 1 \/ s_class s = 2.
+Proof. exact sites_sorted_or_insensitive. Qed.
+Print Assumptions C10_no_unsorted_set_iteration.
 
-(* the sorted() sites the property names are (still) wrapped in sorted() *)
+(* the sorted() sites the property names, and the ones of the repair, are (still) wrapped in sorted() ... *)
 Theorem C10_sorted_sites_present : forall r, In r required_sorted_sites ->
   exists s, In s sites /\ s_file s = fst (fst r) /\ s_fn s = snd (fst r) /\ s_iter s = snd r /\ s_class s = 1.
 Proof. exact sorted_sites_present. Qed.
 Print Assumptions C10_sorted_sites_present.
+
+(* ... all four loops of the repair: both `new_names` loops of _promote_branch_decls, the `promoted_set` loop of the while
+   handler and the one of the for handler *)
+Theorem C10_repaired_sites_sorted :
+  count_sorted (txt "_promote_branch_decls"%string) (txt "new_names"%string) = 2%nat /\
+  count_sorted (txt "_parse_simple_lines"%string) (txt "promoted_set"%string) = 2%nat.
+Proof. exact repaired_sites_counted. Qed.
+Print Assumptions C10_repaired_sites_sorted.
 
 (* no function of the three transpiler modules mutates module-level state, except the verification hook's log *)
 Theorem C10_no_module_state : forall m, In m module_state -> m_mutated m = true -> m_name m = hook_log.
